@@ -86,6 +86,11 @@ let () =
         | "sdmax" :: _ -> Some (OSdMax (zi 1))
         | "sdgetmax" :: _ -> Some OSdGetMax
         | "sdnopen" :: _ -> Some OSdNOpen
+        | "sdattr" :: _ -> Some (OSdAttr (zi 1, zi 2, zi 3, zi 4, zi 5))
+        | "sdattrinfo" :: _ -> Some (OSdAttrInfo (zi 1, zi 2, zi 3))
+        | "grattr2" :: _ -> Some (OGrAttr2 (zi 1, zi 2, zi 3))
+        | "vgattr2" :: _ -> Some (OVgAttr2 (zi 1, zi 2, zi 3, zi 4))
+        | "vsattr2" :: _ -> Some (OVsAttr2 (zi 1, zi 2, zi 3, zi 4))
         | "seekat" :: _ -> Some (OSeekAt (zi 1, zi 2, zi 3, zi 4, zi 5, zi 6))
         | "chunkfill" :: _ -> Some (OChunkFill (zi 1, zi 2, zi 3))
         | "fn_vshdrlen" :: _ ->
@@ -188,6 +193,11 @@ let () =
             | _ -> ())
        | Some ONewRef when iz h.h_maxref >= 0 ->
            (match m_newref_next h.h_maxref with Some r -> m := Printf.sprintf "ok %d" (iz r) | None -> ())
+       | Some (OSdAttr (_, _, _, nt, count)) when iz (ntsize nt) > 0 -> m := okf (m_sdsetattr (ntsize nt) count)
+       | Some (OGrAttr2 (nt, c1, c2)) when iz (ntsize nt) > 0 ->
+           let r1 = m_grsetattr (ntsize nt) c1 and r2 = m_grsetattr (ntsize nt) c2 in
+           m := Printf.sprintf "ok %d %d %d" (if r1 then 1 else 0) (if r2 then 1 else 0)
+                  (if r2 then iz c2 else if r1 then iz c1 else -1)
        | Some (OSdCreate (_, nlen, rank)) -> m := okf (m_sdcreate_ok rank nlen)
        | Some (OSdMax n) when iz d.d_size <> 0 ->
            let slots = resize d.d_slots (let rec nat_of k = if k <= 0 then O else S (nat_of (k - 1)) in nat_of (iz d.d_size)) in
